@@ -496,13 +496,6 @@ pub fn per_visible_range_constraints(
     Ok(constraints)
 }
 
-/// 10.3.21 If a constraint that is PER-visible is part of an INTERSECTION construction,
-/// then the resulting constraint is PER-visible, and consists of the INTERSECTION of
-/// all PER-visible parts (with the non-PER-visible parts ignored).
-/// If a constraint which is not PER-visible is part of a UNION construction,
-/// then the resulting constraint is not PER-visible.
-/// If a constraint has an EXCEPT clause, the EXCEPT and the following value set is completely ignored,
-/// whether the value set following the EXCEPT is PER-visible or not.
 /// Whether one of the operands of the set is a SIZE constraint: the folded range is then a size.
 fn set_has_size_element(set: &SetOperation) -> bool {
     matches!(set.base, SubtypeElements::SizeConstraint(_))
@@ -524,6 +517,13 @@ fn trailing_extension_marker(set: &SetOperation) -> bool {
     }
 }
 
+/// 10.3.21 If a constraint that is PER-visible is part of an INTERSECTION construction,
+/// then the resulting constraint is PER-visible, and consists of the INTERSECTION of
+/// all PER-visible parts (with the non-PER-visible parts ignored).
+/// If a constraint which is not PER-visible is part of a UNION construction,
+/// then the resulting constraint is not PER-visible.
+/// If a constraint has an EXCEPT clause, the EXCEPT and the following value set is completely ignored,
+/// whether the value set following the EXCEPT is PER-visible or not.
 fn fold_constraint_set(
     set: &SetOperation,
     char_set: Option<&BTreeMap<usize, char>>,
